@@ -1269,7 +1269,8 @@ flatcc_builder_vt_ref_t flatcc_builder_create_cached_vtable(flatcc_builder_t *B,
         } else {
             /* Make space in vtable cache. */
             if (!(vt_ = reserve_buffer(B, flatcc_builder_alloc_vb, B->vb_end, vt_size, 0))) {
-                return -1;
+                /* 0 is the failure value; -1 would be taken for a reference by end_table. */
+                return 0;
             }
             vd->vb_start = B->vb_end;
             B->vb_end += vt_size;
